@@ -126,7 +126,22 @@ def lean_check(prop, thorough=False):
     r = LeanResult()
     sys.path.insert(0, os.path.join(VERIF, 'tools'))
     import extract
-    r.extract_rc, r.extract_report = extract.main(REPO)
+    rc_all, r.extract_report = extract.main(REPO)
+    r.files = model_sources(prop)
+    # an extractor that fails matters to this property only if it produces a Generated table this property imports
+    needed = {m.split('.')[-1] + '.lean' for m in r.files if m.startswith('Pywbem.Generated.')}
+    r.extract_rc = 0
+    for fn, rep in r.extract_report.items():
+        if isinstance(rep, dict) and 'error' in rep:
+            try:
+                with open(os.path.join(VERIF, 'tools', 'extractors', fn)) as f:
+                    outs = set(re.findall(r"['\"]([A-Za-z0-9_]+\.lean)['\"]", f.read()))
+            except OSError:
+                outs = set()
+            if not outs or (outs & needed):
+                r.extract_rc = 2
+    r.extract_report = {k: v for k, v in r.extract_report.items()
+                        if ('error' in v and r.extract_rc) or any(n in needed for n in v)}
     rc, log = lake(['build', 'Proofs.Props.' + prop, 'drv_' + prop.lower()])
     r.build_ok = (rc == 0)
     r.build_log = log
@@ -155,9 +170,9 @@ def lean_check(prop, thorough=False):
             p = subprocess.run(['lake', 'env', 'lean', audit], cwd=LEAN, stdout=subprocess.PIPE,
                                stderr=subprocess.STDOUT, text=True, timeout=900)
             out = p.stdout.replace('\n ', ' ')
-            for mm in re.finditer(r"'([^']+)' depends on axioms: \[([^\]]*)\]", out):
+            for mm in re.finditer(r"^'(.+)' depends on axioms: \[([^\]]*)\]", out, flags=re.M):
                 r.theorems[mm.group(1)] = [a.strip() for a in mm.group(2).split(',') if a.strip()]
-            for mm in re.finditer(r"'([^']+)' does not depend on any axioms", out):
+            for mm in re.finditer(r"^'(.+)' does not depend on any axioms", out, flags=re.M):
                 r.theorems[mm.group(1)] = []
         finally:
             os.unlink(audit)
